@@ -37,9 +37,9 @@ theorem numeric_instr_concrete (opcode : String) (args : List Val) (h : Out.Defi
 /-- **C03/C04 with concrete numerics and memory.** -/
 theorem module_sim_concrete (m : MModule) (grow : Mem → Nat → Mem × BitVec 32) (cfs : List Model.CFunc)
     (hc : m.compileFuncs m.funcs = .ok cfs) (hh : HostOK m) (n fn : Nat) (args : List Val) (g : GS) (hg : GTyped m.ctx g) :
-    Refines ((m.run (withConcMem specNS grow) cfs n).1 fn args g) (m.runT (withConcMem macroNS grow) cfs n fn args g) := by
-  have hs := module_sim m (withConcMem specNS grow) (numOK_spec_mem grow) (C05.memOK_concrete specNS grow) cfs hc hh n fn args g hg
-  have ht := runT_eq m _ _ (baseRef_macro grow) cfs n fn args g
+    Refines ((m.run (withConcMem specNS grow m.datas) cfs n).1 fn args g) (m.runT (withConcMem macroNS grow m.datas) cfs n fn args g) := by
+  have hs := module_sim m (withConcMem specNS grow m.datas) (numOK_spec_mem grow m.datas) (C05.memOK_concrete specNS grow m.datas) cfs hc hh n fn args g hg
+  have ht := runT_eq m _ _ (baseRef_macro grow m.datas) cfs n fn args g
   constructor
   · intro r hr
     have h2 := hs.1 r hr
